@@ -74,9 +74,44 @@ def run_units(jobs, procs=None):
     procs = procs or min(16, max(1, len(jobs)))
     if procs == 1 or os.environ.get("PYVC_SERIAL"):
         return [_run_unit(j) for j in jobs]
+    # every unit runs in a process of its own (at most `procs` at a time), forked from this single-threaded parent: a worker that dies (the
+    # solver has been seen to abort the process - heap corruption inside z3 on some string queries) then costs that unit only, and the check
+    # never waits for a dead worker.  A unit whose process died is tried once more; if it dies again it is a crash of the check for that
+    # unit (exit 3 - never a verdict).
+    from multiprocessing import connection
     ctx = multiprocessing.get_context("fork")
-    with ctx.Pool(procs) as pool:
-        return pool.map(_run_unit, jobs, chunksize=1)
+    results = [None] * len(jobs)
+    attempts = [0] * len(jobs)
+    queue = list(range(len(jobs)))
+    running = {}
+    while queue or running:
+        while queue and len(running) < procs:
+            i = queue.pop(0)
+            rd, wr = ctx.Pipe(duplex=False)
+            pr = ctx.Process(target=_child, args=(jobs[i], wr))
+            pr.start()
+            wr.close()
+            running[rd] = (i, pr)
+        for rd in connection.wait(list(running), timeout=2.0):
+            i, pr = running.pop(rd)
+            try:
+                results[i] = rd.recv()
+            except (EOFError, OSError):
+                attempts[i] += 1
+                if attempts[i] < 2:
+                    queue.append(i)
+                else:
+                    results[i] = dict(ok=False, error="the worker process died while running this unit, twice (solver or interpreter abort)", wall=0.0, job=jobs[i][:3])
+            rd.close()
+            pr.join()
+    return results
+
+
+def _child(job, wr):
+    try:
+        wr.send(_run_unit(job))
+    finally:
+        wr.close()
 
 
 def main(prop, tier="quick", only=None):
